@@ -43,7 +43,7 @@ fn main() {
                 cfg.allow_branch = rng.chance(1, 2);
                 cfg.branch_pct = 10;
                 cfg.terminal_pct = 35;
-                let function = fv::gen::function(&mut rng, &cfg, 0x1000);
+                let function = fv::gen::any_function(&mut rng, &cfg, 0x1000);
                 let x = XProg {
                     function, scalars: scalars.clone(), big: rng.bool(), mem_base: 0x2000,
                     inits: xplor::initial_states(&mut rng, &scalars, 0x2000, 2),
